@@ -14,3 +14,4 @@ Proof.
            {| l_label := Some 7; l_stmt := None |} ].
   eexists. exists 1%nat. split; [vm_compute; reflexivity|]. split; vm_compute; discriminate.
 Qed.
+Print Assumptions C10_symbolic_org_refuted.
